@@ -20,8 +20,10 @@
 -/
 import QEModel.Base
 import QEModel.Pivot
+import QEModel.C05
 namespace QE.C15
 open QE QE.Pivot
+open QE.C05 (LHState lhStep lhLoop basicSum basicVal mixedOf)
 
 section generic
 variable {α : Type} [Zero α] [One α] [Add α] [Sub α] [Mul α] [Div α] [Neg α] [LT α] [LE α]
@@ -158,37 +160,9 @@ def igT1 (m : Nat) (X Y : List (List α)) : M α :=
     else if j < 2 * m then (pay.get i (j - m) - mins.getD (j - m) 0) + 1
     else 1
 
-structure LHState (α : Type) where
-  T0 : M α
-  T1 : M α
-  b0 : List Nat
-  b1 : List Nat
-  pivot : Nat
-  numIter : Nat
-
 /-- lines 349-351: `bases = (m..2m-1, 0..m-1)` -/
 def igInit (m : Nat) (X Y : List (List α)) (pivot : Nat) : LHState α :=
-  ⟨igT0 m, igT1 m X Y, (List.range m).map (· + m), List.range m, pivot, 0⟩
-
-/-- body of `for pl in pls` (lemke_howson.py 398-407); `slack_starts = (m, 0)` -/
-def lhStep (m : Nat) (tp td : α) (s : LHState α) (pl : Nat) : LHState α :=
-  if pl = 0 then
-    let r := (lexMinRatio s.T0 s.pivot m tp td).2
-    { s with T0 := pivot s.T0 s.pivot r, b0 := s.b0.set r s.pivot, pivot := s.b0.getD r 0,
-             numIter := s.numIter + 1 }
-  else
-    let r := (lexMinRatio s.T1 s.pivot 0 tp td).2
-    { s with T1 := pivot s.T1 s.pivot r, b1 := s.b1.set r s.pivot, pivot := s.b1.getD r 0,
-             numIter := s.numIter + 1 }
-
-/-- the `while True` loop of `_lemke_howson_tbl` (395-416); `fuel = max_iter - 1` -/
-def lhLoop (m initPivot : Nat) (tp td : α) : Nat → LHState α → Nat → Bool × LHState α
-  | 0, s, pl =>
-    let s' := lhStep m tp td s pl
-    (decide (s'.pivot = initPivot), s')
-  | fuel + 1, s, pl =>
-    let s' := lhStep m tp td s pl
-    if s'.pivot = initPivot then (true, s') else lhLoop m initPivot tp td fuel s' (1 - pl)
+  ⟨igT0 m, igT1 m X Y, (List.range m).map (· + m), List.range m, pivot, 0, 0, 0⟩
 
 /-- `_lemke_howson_tbl(tableaux_curr, bases_curr, init_pivot=m-1, max_iter=max_piv)` on the
     imitation game of the history `(X, Y)` -/
@@ -197,20 +171,6 @@ def igLH (X Y : List (List α)) (maxPiv : Nat) (tp td : α) : Bool × LHState α
   let s0 : LHState α := igInit m X Y (m - 1)
   let initPlayer := if s0.b0.contains (m - 1) then 1 else 0
   lhLoop m (m - 1) tp td (maxPiv - 1) s0 initPlayer
-
-def basicSum (T : M α) (b : List Nat) (start stop : Nat) : α :=
-  (List.range T.nr).foldl (fun acc i =>
-    let k := b.getD i 0
-    if start ≤ k ∧ k < stop then acc + T.get i (T.nc - 1) else acc) 0
-
-def basicVal (T : M α) (b : List Nat) (k : Nat) : α :=
-  (List.range T.nr).foldl (fun acc i => if b.getD i 0 = k then T.get i (T.nc - 1) else acc) 0
-
-/-- `_get_mixed_actions` for one player -/
-def mixedOf (T : M α) (b : List Nat) (start stop : Nat) : List α :=
-  let s := basicSum T b start stop
-  (List.range' start (stop - start)).map fun k =>
-    if s == 0 then basicVal T b k else basicVal T b k / s
 
 /-- `_, rho = _get_mixed_actions(tableaux_curr, bases_curr)` -/
 def igRho (X Y : List (List α)) (maxPiv : Nat) (tp td : α) : List α :=
